@@ -330,7 +330,11 @@ ApplyEntries(ix0, a) ==
         IF a.ent[id] = <<>> THEN ix
         ELSE LET e == a.ent[id][1] IN
              IF e.vec # Nil
-             THEN IF Live(ix, id) THEN ix                       \* duplicate add is refused by the index
+             THEN IF Live(ix, id)
+                  \* the vector is already in the image (the old log replayed over a newer image, or an image that caught
+                  \* the call between its insert and its metadata): the index refuses the duplicate add, the metadata
+                  \* the log holds for the id is merged onto what the image has (3e10d03)
+                  THEN IxSetMeta(ix, id, MergeMeta(NodeOf(ix, id).meta, e.meta))
                   ELSE IxAdd(ix, id, e.vec, e.meta)
              ELSE IF Live(ix, id) THEN IxSetMeta(ix, id, MergeMeta(NodeOf(ix, id).meta, e.meta))
                   ELSE ix                                       \* metadata for an unknown vector: dropped
@@ -721,6 +725,16 @@ SaveSnapshot ==
   /\ Log([op |-> "SaveSnapshot", res |-> "ok"])
   /\ UNCHANGED <<mem, clock, dev, delat>>
 
+\* SaveSnapshot cut by the death of the process after the image was renamed into place and before the log was
+\* truncated, followed by the restart: the new image AND the complete old log are read. The process then carries on
+\* (further calls are journaled behind the old log, over the newer image).
+SnapshotCut ==
+  /\ ~CoreVacuum /\ ~dirty
+  /\ snap' = <<mem>>
+  /\ mem' = Recover(<<mem>>, file)
+  /\ Log([op |-> "SnapshotCut", res |-> "ok"])
+  /\ UNCHANGED <<file, clock, dev, delat, dirty>>
+
 RewriteAOF ==
   /\ file' = IF Dev("rewrite_keeps_snapshot") THEN Tail(Emit(mem)) ELSE Emit(mem)
   /\ Log([op |-> "RewriteAOF", res |-> "ok"])
@@ -797,6 +811,7 @@ Next ==
   \/ \E s \in GNodes, r \in Rels : VGetConnections(s, r)
   \/ GraphVacuum
   \/ \E c \in 1..clock : GraphVacuumAt(c)
+  \/ SnapshotCut
   \/ SaveSnapshot
   \/ RewriteAOF
   \/ Reopen
@@ -864,7 +879,7 @@ Prop_MaintenanceInvisible ==
         => Obs(mem') = Obs(mem) ]_vars
 \* C01 as an action property of the restart itself
 Prop_ReopenIdentity ==
-  [][ (Len(ops') = Len(ops) + 1 /\ ops'[Len(ops')].op = "Reopen" /\ dev = {}) => Obs(mem') = Obs(mem) ]_vars
+  [][ (Len(ops') = Len(ops) + 1 /\ ops'[Len(ops')].op \in {"Reopen", "SnapshotCut"} /\ dev = {}) => Obs(mem') = Obs(mem) ]_vars
 
 (***************************************************************************)
 (* Model-checking plumbing: bounds, the view, and the corpus channel.      *)
@@ -877,7 +892,7 @@ Bound == /\ Len(file) <= MaxFile
 \* the history is not part of the state identity
 \* (a delete whose cascade is cut by a crash leads to the same state as the complete delete -- that is the property --
 \*  so the kind of the last delete is part of the state identity; otherwise BFS keeps the VDelete history only)
-CutMark == IF ops # <<>> /\ ops[Len(ops)].op = "VDeleteCut" THEN "cut" ELSE "none"
+CutMark == IF ops # <<>> /\ ops[Len(ops)].op \in {"VDeleteCut", "SnapshotCut"} THEN ops[Len(ops)].op ELSE "none"
 View == <<mem, snap, file, clock, dev, delat, dirty, CutMark>>
 
 \* C05 corpus: every (reachable state, rejected call) pair is its own state, emitted when found and not expanded
